@@ -508,8 +508,11 @@ func (g *Gen) checkPost(res []string, pos token.Pos) {
 			continue
 		}
 		k++
-		if m := retSuffixRe.FindStringSubmatch(cl.Label); m != nil && m[1] != fmtf("%d", rn) {
-			continue // clause restricted to one return (label ..._retN, N in source order)
+		if m := retSuffixRe.FindStringSubmatch(cl.Label); m != nil {
+			if m[1] != fmtf("%d", rn) {
+				continue // clause restricted to one return (label ..._retN, N in source order)
+			}
+			g.usedAxioms["rethit:"+cl.Label] = true
 		}
 		t, err := env.evalBool(cl.E)
 		if err != nil {
